@@ -69,6 +69,8 @@ func typeString(t types.Type) string {
 var aliasRe = regexp.MustCompile(`\b(byte|rune)\b`)
 
 func loadProgram(dir string, tags string) (*Program, error) {
+	// type aliases (zap.Field = zapcore.Field) must denote the aliased type everywhere
+	os.Setenv("GODEBUG", "gotypesalias=0")
 	fset := token.NewFileSet()
 	var all []*packages.Package
 	{
@@ -139,7 +141,7 @@ func loadProgram(dir string, tags string) (*Program, error) {
 
 func (P *Program) harvestContracts(f *ast.File) {
 	fname := P.Fset.Position(f.Pos()).Filename
-	if !strings.HasSuffix(fname, "zz_contracts_verif.go") {
+	if b := filepath.Base(fname); !(strings.HasPrefix(b, "zz_contracts") && strings.HasSuffix(b, "_verif.go")) {
 		return
 	}
 	cs := contractSource{File: fname}
